@@ -135,6 +135,45 @@ func manyBlobLiveCase(r *Rng) sqCase {
 	return sqCase{txs: l, max: 32, thr: 64}
 }
 
+// sharedBlobObjectHistory (builder API): the SAME *share.Blob object sits in two blob transactions and twice in
+// one of them.  Every (transaction, blob) position is a blob of its own whatever objects the caller reused: the
+// exported square must equal Construct over the marshalled transactions, and every index must be recorded.
+func sharedBlobObjectHistory(c *Ctx, r *Rng) {
+	nss := blobNamespaces(r, 2)
+	mk := func(ns []byte, n int) *share.Blob {
+		b, err := share.NewBlob(nsOf(ns), r.Bytes(n), 0, nil)
+		if err != nil {
+			panic("harness: NewBlob: " + err.Error())
+		}
+		return b
+	}
+	shared := mk(nss[0], 300+r.Intn(900))
+	other := mk(nss[len(nss)-1], 1+r.Intn(400))
+	in1, in2 := r.Bytes(40+r.Intn(100)), r.Bytes(40+r.Intn(100))
+	t1 := &tx.BlobTx{Tx: in1, Blobs: []*share.Blob{shared}}
+	t2 := &tx.BlobTx{Tx: in2, Blobs: []*share.Blob{other, shared, shared}}
+	raw1, _ := tx.MarshalBlobTx(in1, shared)
+	raw2, _ := tx.MarshalBlobTx(in2, other, shared, shared)
+	wit := map[string]any{"history": "one *share.Blob object in tx 0 and twice in tx 1, appended through AppendBlobTx"}
+	c.guard("Builder (shared blob object)", wit, func() {
+		b, err := square.NewBuilder(8, 64)
+		if err != nil || !b.AppendBlobTx(t1) || !b.AppendBlobTx(t2) {
+			c.check(false, "Builder (shared blob object)", "append refused", wit)
+			return
+		}
+		got, err := b.Export()
+		want, err2 := square.Construct([][]byte{raw1, raw2}, 8, 64)
+		c.check(err == nil && err2 == nil && sameSquare(got, want), "Builder (shared blob object)", "export differs from Construct over the same transactions", wit)
+		for _, q := range [][2]int{{0, 0}, {1, 0}, {1, 1}, {1, 2}} {
+			idx, err := b.FindBlobStartingIndex(q[0], q[1])
+			rg, err2 := square.BlobShareRange([][]byte{raw1, raw2}, q[0], q[1], 8, 64)
+			c.check(err == nil && err2 == nil && idx == rg.Start, "Builder (shared blob object)", "recorded index differs from BlobShareRange", wit)
+		}
+	})
+	c.count("shared_blob_object")
+	c.goOnly++
+}
+
 // boundaryExportHistories: write / export histories of a compact splitter in which an export happens
 // with a partially filled pending share, later writes end EXACTLY on a share boundary, an export follows
 // at once, and writing resumes - plus the orders obtained by rotating the three situations.
